@@ -5,8 +5,9 @@
 (* over all selections, orders and templates.                                        *)
 (* The model describes the code after the fix: commits listed in known_findings.json *)
 (* (lexists guards, guard re-checked after mkdir -p, backlog remembers the input     *)
-(* directory, dry-run keys absolute, component-wise containment); the pre-fix        *)
-(* variants are selected by the [variant] record and used only for refutations.      *)
+(* directory, dry-run keys absolute, component-wise containment, the directory of   *)
+(* the destination entry tested too (F34)); the pre-fix variants are selected by the *)
+(* [variant] record and used only for refutations.                                   *)
 From Tempren Require Import Base.Str Py.PathLib FS.Model.
 Open Scope N_scope.
 
@@ -55,10 +56,16 @@ Record variant := {
   v_recheck_after_mkdir : bool;(* FileMover re-tests the destination after mkdir -p           *)
   v_backlog_chdir : bool;      (* deferred renames are retried in their own input directory   *)
   v_dry_abs_keys : bool;       (* DryRunRenamer keys its sets by absolute path, uses lexists  *)
-  v_component_containment : bool (* is_relative_to instead of str.startswith                 *)
+  v_component_containment : bool; (* is_relative_to instead of str.startswith                 *)
+  v_dest_parent_containment : bool (* the directory of the destination entry must lie inside too (F34) *)
 }.
 Definition fixed : variant := {| v_lexists_guard := true; v_recheck_after_mkdir := true;
-  v_backlog_chdir := true; v_dry_abs_keys := true; v_component_containment := true |}.
+  v_backlog_chdir := true; v_dry_abs_keys := true; v_component_containment := true;
+  v_dest_parent_containment := true |}.
+(* the code before the repair of F34: the destination entry's own directory is not tested *)
+Definition pre_f34 : variant := {| v_lexists_guard := true; v_recheck_after_mkdir := true;
+  v_backlog_chdir := true; v_dry_abs_keys := true; v_component_containment := true;
+  v_dest_parent_containment := false |}.
 
 Record cfg := {
   c_mode : mode;
@@ -359,6 +366,26 @@ Definition contained (v : variant) (s : fs) (f : pfile) (np : ppath) : option bo
                     else str_prefix_path (pf_dir f) a)
   end.
 
+(* the directory the destination entry really lives in must lie in the input directory too: a
+   destination whose last component is a symbolic link is replaced by rename(2), not followed, while
+   [contained] follows it (F34):
+   (input_directory / new_relative_path).parent.resolve().is_relative_to(input_directory);
+   [.parent] is lexical (the last component may be ".."); an absolute generated path replaces the
+   input directory in the join, as in [contained] *)
+Definition dest_parent (f : pfile) (np : ppath) : upath :=
+  {| up_abs := true;
+     up_comps := removelast (if Nat.eqb (pp_root np) 0 then pf_dir f ++ pp_parts np else pp_parts np) |}.
+
+Definition dest_parent_contained (s : fs) (f : pfile) (np : ppath) : option bool :=
+  match realpath s [] (dest_parent f np) with
+  | None => None                                         (* symlink loop: RuntimeError *)
+  | Some a => Some (is_prefix_path (pf_dir f) a)
+  end.
+
+(* the test as the variant has it: absent before the repair *)
+Definition dest_parent_test (v : variant) (s : fs) (f : pfile) (np : ppath) : option bool :=
+  if v_dest_parent_containment v then dest_parent_contained s f np else Some true.
+
 (* every directory that does not exist yet on the way to the destination must resolve inside the
    input directory: (destination_parent, *destination_parent.parents), lexical parents, stopping at
    the first one that exists *)
@@ -418,6 +445,10 @@ Fixpoint first_pass (c : cfg) (plan : list (pfile * rendered)) (w : world) (cwd 
              | None => (w, cwd1, backlog, Some ExOther)
              | Some false => (w, cwd1, backlog, Some ExInvalidDest)
              | Some true =>
+               match dest_parent_test (c_var c) (w_fs w) f np with
+               | None => (w, cwd1, backlog, Some ExOther)
+               | Some false => (w, cwd1, backlog, Some ExInvalidDest)
+               | Some true =>
                match parents_contained (w_fs w) f np with
                | None => (w, cwd1, backlog, Some ExOther)
                | Some false => (w, cwd1, backlog, Some ExInvalidDest)
@@ -431,6 +462,7 @@ Fixpoint first_pass (c : cfg) (plan : list (pfile * rendered)) (w : world) (cwd 
                | (w1, Some e) =>
                  if is_file_exists e then first_pass c rest w1 cwd1 ((pf_dir f, pf_rel f, np) :: backlog)
                  else (w1, cwd1, backlog, Some e)
+               end
                end
                end
                end
